@@ -758,6 +758,66 @@ def g_transform_comp(R, tier):
                    "def f(x):\n    def g():\n        return x\n    x = [5, 6]\n    return [x for x in x], g()\nr = f([1, 2])\n")
 
 
+def _safe_show(res):
+    try:
+        return ast.dump(res)[:400]
+    except Exception:  # noqa: BLE001
+        return repr(res)
+
+
+def g_nested_binders(R, tier):
+    """integration of transformer and namespace (no stubs): a name bound by an OUTER
+    comprehension or lambda and read inside an INNER lambda or comprehension stays a plain
+    name, although the function keeps a captured variable of the same name in its cell dict;
+    a name bound by neither is read from the cell dict"""
+    E = et()
+    ns = NS()
+    N = lambda n, c=ast.Load: ast.Name(id=n, ctx=c())
+    comp = lambda tgt, it: ast.comprehension(target=N(tgt, ast.Store), iter=it, ifs=[], is_async=0)
+    lam = lambda params, body: ast.Lambda(args=ast.arguments(posonlyargs=[], args=[ast.arg(arg=p) for p in params], kwonlyargs=[], kw_defaults=[], defaults=[]), body=body)
+    shapes = {
+        "comprehension-in-comprehension": lambda: ast.ListComp(elt=ast.ListComp(elt=ast.Tuple(elts=[N("x"), N("y"), N("z")], ctx=ast.Load()), generators=[comp("y", N("seq"))]), generators=[comp("x", N("seq"))]),
+        "lambda-in-comprehension": lambda: ast.ListComp(elt=lam(["y"], ast.Tuple(elts=[N("x"), N("y"), N("z")], ctx=ast.Load())), generators=[comp("x", N("seq"))]),
+        "comprehension-in-lambda": lambda: lam(["x"], ast.ListComp(elt=ast.Tuple(elts=[N("x"), N("y"), N("z")], ctx=ast.Load()), generators=[comp("y", N("seq"))])),
+        "lambda-in-lambda": lambda: lam(["x"], lam(["y"], ast.Tuple(elts=[N("x"), N("y"), N("z")], ctx=ast.Load()))),
+    }
+    for kind in ("function", "class"):
+        for sname, mk in shapes.items():
+            def run(c):
+                m = Machine(stubs={"oneliner.reserved_identifiers:ol_name": CL.stub_ol_name()})  # the REAL transformer and namespace
+                syms = {}
+                for n_ in ("x", "y", "z", "seq"):
+                    sy, f = mk_symbol(f"T.{n_}")
+                    c.assume(f["local"])
+                    syms[n_] = sy
+                symt = mk_symt("T", symbols=syms, frees=[], nonlocals=[], kind=kind)
+                cls = ns.NamespaceFunction if kind == "function" else ns.NamespaceClass
+                nsp = m.call_value(cls, symt, [mk_scope("G", "global")])
+                if kind == "function":
+                    nsp.inner_nonlocal_names.update({"x", "y", "z"})  # all three are ALSO captured variables of the function
+                tree = mk()
+                res = m.call_value(E.expr_transf, nsp, tree)
+                return dict(res=res, nsp=nsp)
+            paths = explore(run)
+            nm = f"expr_transform.expr_transf[{kind},{sname}]"
+            if not paths_or_undecided(R, nm + "/paths", paths):
+                continue
+            for p in paths:
+                if p.kind != "ok":
+                    R.fail(f"{nm}/no-unexpected-raise", repr(p.value), replay=dict(kind="scope"))
+                    continue
+                res = p.value["res"]
+                tuples = [n for n in ast.walk(res) if isinstance(n, ast.Tuple) and len(n.elts) == 3]
+                ok = len(tuples) == 1
+                if ok:
+                    ex, ey, ez = tuples[0].elts
+                    plain = lambda e, n_: isinstance(e, ast.Name) and e.id == n_
+                    celled = lambda e: isinstance(e, ast.Subscript) and isinstance(e.slice, ast.Constant) and e.slice.value == "z"
+                    ok = plain(ex, "x") and plain(ey, "y") and celled(ez)
+                R.check(f"{nm}/names-bound-by-enclosing-binders-stay-plain-others-go-to-the-cell", ok,
+                        _safe_show(res), replay=dict(kind="scope"))
+
+
 # ----------------------------------------------------------------------------------------
 # symtable walk: generic steps
 
@@ -881,13 +941,15 @@ def g_for_target(R, tier):
                    "def f():\n    for i in range(3):\n        pass\n    def g():\n        return i\n    return i, g()\nr = f()\nfor k in range(2):\n    pass\nlast = k\n")
 
 
-GROUPS = {"for_target": g_for_target, "namespace_isolation": g_namespace_isolation, "birthplace": g_birthplace, "method_super": g_method_super, "access_function": g_access_function, "access_class": g_access_class, "access_global": g_access_global,
+GROUPS = {"nested_binders": g_nested_binders, "for_target": g_for_target, "namespace_isolation": g_namespace_isolation, "birthplace": g_birthplace, "method_super": g_method_super, "access_function": g_access_function, "access_class": g_access_class, "access_global": g_access_global,
           "transform_dispatch": g_transform_dispatch, "transform_generic": g_transform_generic, "transform_names": g_transform_names,
           "transform_comp": g_transform_comp, "walk": g_walk, "seeding": g_seeding, "canary": c13.g_canary}
 
 
 # ----------------------------------------------------------------------------------------
 SCOPE_PROGRAMS = [
+    "def f(x):\n    def g():\n        return x\n    x = x + 4\n    fs = [(lambda: x + 3) for x in (10, 10, 10)]\n    h = lambda x: (lambda y: x + y)\n    return [k() for k in fs], h(1)(2), g()\nr = f(10)\n",
+    "def f(*rest, **kw):\n    def g():\n        return rest, kw\n    return g()\nr = f(1, 2, a=3)\n",
     "def F(a, b=2, *c, d=4, **e):\n    def G():\n        return a, b, c, d, e\n    a = a + 1\n    return G()\nr = F(1, 5, 6, z=7)\n",
     "def f():\n    xs = [1, 2]\n    def g():\n        return xs\n    return [y for y in xs if y in xs], [[z for z in xs] for y in xs], g()\nr = f()\n",
     "def F():\n    x = 0\n    def G():\n        nonlocal x\n        x = 1\n        def H():\n            return x\n        return H\n    return G()()\nr = F()\n",
